@@ -170,12 +170,22 @@ class Database:
             logger.info(
                 "Applying migration version %d (%s)", idx, migration.__name__
             )
-            await migration(self.conn)
-            await self.execute(
-                "insert into versions (version) values (?)",
-                str(idx),
-                commit=True,
-            )
+            # NOTE: The migration and the record that it has been applied go
+            #       in to the same transaction (python's sqlite3 module does
+            #       not start one for DDL statements by itself.) If we die in
+            #       between, the next start must neither skip the migration
+            #       nor try to apply it a second time.
+            #
+            await self.conn.execute("BEGIN")
+            try:
+                await migration(self.conn)
+                await self.conn.execute(
+                    "insert into versions (version) values (?)", (idx,)
+                )
+                await self.conn.commit()
+            except BaseException:
+                await self.conn.rollback()
+                raise
 
     ####################################################################
     #
